@@ -202,6 +202,19 @@ pub fn plan(tier: Tier) -> Plan {
             do_case(&kvs, Front::MapInsert, DEFAULT_GEOM, 0, st, rep);
         }
     }));
+    {
+        let total = if thorough { 1260 } else { 168 };
+        for part in 0..16usize {
+            p.units.push(unit("mixed-mid-size-family-(finite-family)", format!("mixed part {}", part), move |st, rep| {
+                for (i, (_, kvs)) in mixed_family(total).into_iter().enumerate() {
+                    if i % 16 != part { continue; }
+                    st.nontrivial += 1;
+                    do_case(&kvs, Front::RawInsert, DEFAULT_GEOM, 0, st, rep);
+                    do_case(&kvs, Front::RawInsert, (3, 3), 0, st, rep);
+                }
+            }));
+        }
+    }
     let sizes: Vec<u64> = if thorough { vec![3_000, 70_000, 1_200_000] } else { vec![3_000, 70_000] };
     for n in sizes {
         p.units.push(unit("size-families", format!("size family {}", n), move |st, rep| {
